@@ -23,12 +23,13 @@ VARIANTS = {
     "pfe-cet": (["gcc", "-O1", "-fpatchable-function-entry=5", "-fcf-protection=full"], 5),
     "clang": (["clang", "-O1", "-fpatchable-function-entry=5"], 5),
     "fentry": (["gcc", "-O1", "-pg", "-mfentry", "-mnop-mcount", "-fno-pie", "-no-pie", "-fcf-protection=none"], 3),
+    "fentry-cet": (["gcc", "-O1", "-pg", "-mfentry", "-mnop-mcount", "-fno-pie", "-no-pie", "-fcf-protection=full"], 3),
 }
 
 
 def gen_program(rng, variant):
     names = rng.sample(NAMES, rng.choice([4, 5, 6, 7]))
-    nopatch = "__attribute__((no_instrument_function))" if variant == "fentry" else \
+    nopatch = "__attribute__((no_instrument_function))" if variant.startswith("fentry") else \
         "__attribute__((patchable_function_entry(0)))"
     funcs = []
     src = ["#include <stdio.h>", "#include <string.h>", "#include <stdlib.h>", "#define NI __attribute__((noinline))",
@@ -192,12 +193,12 @@ def c_ecase(c):
     regok, tbl = base.oracle_tables(c)
     r, t = base.c_tables(regok, tbl)
     o = c["obs"]
-    return ("{| e_ptype := %s; e_funcs := %s; e_defmod := %s; e_regok := %s; e_tbl := %s; e_ty := %d; e_zarg := %s;\n"
+    return ("{| e_ptype := %s; e_funcs := %s; e_defmod := %s; e_regok := %s; e_tbl := %s; e_sect := %s; e_chk := %s; e_zarg := %s;\n"
             "   e_lib := %s; e_text_addr := %s; e_text_size := %s; e_next_mapped := %s; e_wbase := %d; e_before := %s;\n"
             "   e_syms := [%s]; e_targets := [%s];\n"
             "   o_died := %s; o_after := %s; o_traced := [%s]; o_same_output := %s; o_rc_same := %s; o_wx := %d; "
             "o_tramp_perm := %s; o_env := %s |}" % (
-                base.PT[c["ptype"]], base.cb(c["funcs"]), base.cb(c["defmod"]), r, t, c["ty"], base.cz(c["min"]),
+                base.PT[c["ptype"]], base.cb(c["funcs"]), base.cb(c["defmod"]), r, t, "SectPatchable" if c["ty"] == 5 else "SectNone", base.cz(c["chk"]), base.cz(c["min"]),
                 base.cb(c["lib"]), base.cz(c["text_addr"]), base.cz(c["text_size"]), base.cbool(c["next_mapped"]),
                 c["wbase"], base.cb(c["before"]), ";".join(base.c_sym(s) for s in c["syms"]),
                 ";".join("%d" % a for a in c["targets"]),
@@ -227,13 +228,27 @@ Z_BOUNDARY = [1, 6, 7, 16, "0x20", 2147483647, 2147483648, 4294967295, 429496729
               9223372036854775807, 9223372036854775808, 0, -1, -4294967295, -4294967280]
 
 
+def find_chk(h, prog):
+    """check_trace_functions() of the program's ELF through the in-process harness (irrelevant when the
+    patchable section decides)"""
+    if "chk" not in prog:
+        prog["chk"] = 0
+        if prog["ty"] != 5:
+            out = h.run(["FIND %s 0 cc 0" % base.hx(prog["exe"])])
+            k = out[0].split()
+            if k[0] != "FT":
+                raise RuntimeError("c14 harness (FIND on e2e program): %r" % out[:2])
+            prog["chk"] = int(k[2])
+    return prog["chk"]
+
+
 def make_case(ctx, h, prog, opts, ptype, minsz, res):
     nat = prog["native"]
     wbase, before = nat["T"]
     tend = prog["text_addr"] + prog["text_size"]
     nextpg = (tend + 4095) // 4096 * 4096
     c = {"kind": "e2e", "ptype": ptype, "funcs": base.render(opts), "defmod": os.path.basename(prog["exe"]),
-         "lib": prog["exe"], "ty": prog["ty"], "min": zvalue(minsz), "zarg": minsz, "text_addr": prog["text_addr"],
+         "lib": prog["exe"], "ty": prog["ty"], "chk": find_chk(h, prog), "min": zvalue(minsz), "zarg": minsz, "text_addr": prog["text_addr"],
          "text_size": prog["text_size"], "next_mapped": perm_at(nat["maps"], nextpg) != "u",
          "wbase": wbase, "before": before,
          "syms": [s for s in prog["syms"] if wbase <= s[0] and s[0] + 9 <= wbase + len(before)],
